@@ -8,8 +8,8 @@ from . import c09
 from . import c09_kernel as K
 
 PROP = "C15"
-LEAN_TARGETS = ["Asynkit.Props.C15", "Asynkit.Lemmas.GenEqC15"]
-PROPS_FILES = ["Asynkit/Props/C15.lean", "Asynkit/Lemmas/GenEqC15.lean"]
+LEAN_TARGETS = ["Asynkit.Props.C15", "Asynkit.Lemmas.GenEqC15", "Asynkit.Lemmas.GenEqKernelStd"]
+PROPS_FILES = ["Asynkit/Props/C15.lean", "Asynkit/Lemmas/GenEqC15.lean", "Asynkit/Lemmas/GenEqKernelStd.lean"]
 DRIVERS = ["Kernel"]
 TRUSTED = c09.TRUSTED + [
     "delivery is judged from the exceptions the worker bodies catch at their await points; for a "
